@@ -261,7 +261,7 @@ func build(tier string) ([]runner.Instance, time.Duration) {
 }
 
 func main() {
-	runner.Main(runner.Options{Property: "C06", Level: "model_checking", Build: build,
+	runner.Main(runner.Options{Property: "C06", Level: "model_checking", Build: build, RacePoints: true,
 		Rule: "concurrent half: every schedule (deviation bounded, bounds iterated) of each closed program {pre-state} x {2-3 threads x 1-2 operations}; the call/return history of every execution is checked for linearizability against the reference model with porcupine; evaluations = executions = histories checked",
 		Assume: []string{"model of sync/context/channels in verif/vs (DESIGN §2.2)", "logical timestamps: a global counter of call/return events of the serialized execution", "pending blocking calls are released by cancelling their context at quiescence; a context error is a no-op in the specification"}})
 }
